@@ -9,6 +9,7 @@ import (
 	"crypto/rsa"
 	stdx509 "crypto/x509"
 	"crypto/x509/pkix"
+	"fmt"
 	"math/big"
 	"net"
 	"sync"
@@ -252,4 +253,39 @@ func Get() *PKI {
 		pki = p
 	})
 	return pki
+}
+
+var (
+	extraMu    sync.Mutex
+	extraCerts = map[string]gmtls.Certificate{}
+)
+
+// StdServerCert returns (creating it on first use) a server certificate under StdCA for the given
+// DNS names, with an ECDSA P-256 or an RSA key.
+func (p *PKI) StdServerCert(names []string, rsaKey bool) gmtls.Certificate {
+	extraMu.Lock()
+	defer extraMu.Unlock()
+	k := fmt.Sprintf("%v/%v", names, rsaKey)
+	if c, ok := extraCerts[k]; ok {
+		return c
+	}
+	var pub crypto.PublicKey
+	var priv crypto.PrivateKey
+	ku := stdx509.KeyUsageDigitalSignature
+	if rsaKey {
+		key, _ := rsa.GenerateKey(rand.Reader, 2048)
+		pub, priv, ku = &key.PublicKey, key, ku|stdx509.KeyUsageKeyEncipherment
+	} else {
+		key, _ := ecdsa.GenerateKey(elliptic.P256(), rand.Reader)
+		pub, priv = &key.PublicKey, key
+	}
+	t := &stdx509.Certificate{SerialNumber: big.NewInt(int64(300 + len(extraCerts))), Subject: pkix.Name{CommonName: "std leaf " + names[0]}, NotBefore: time.Date(2020, 1, 1, 0, 0, 0, 0, time.UTC), NotAfter: time.Date(2030, 1, 1, 0, 0, 0, 0, time.UTC),
+		DNSNames: names, KeyUsage: ku, ExtKeyUsage: []stdx509.ExtKeyUsage{stdx509.ExtKeyUsageServerAuth}}
+	der, err := stdx509.CreateCertificate(rand.Reader, t, p.StdCA, pub, p.StdCAKey)
+	if err != nil {
+		panic(err)
+	}
+	c := gmtls.Certificate{Certificate: [][]byte{der}, PrivateKey: priv}
+	extraCerts[k] = c
+	return c
 }
